@@ -1054,7 +1054,7 @@ class TrigInfo:
         if self.run_on_shutdown:
             notify_type = "shutdown"
             notify_info = {"trigger_type": "time", "trigger_time": "shutdown"}
-            notify_info.update(self.time_trigger_kwargs.get("kwargs", {}))
+            notify_info.update(self.time_trigger_kwargs.get("kwargs") or {})
             action_future = self.call_action(notify_type, notify_info, run_task=False)
             Function.waiter_await(action_future)
 
@@ -1200,7 +1200,7 @@ class TrigInfo:
                     state_trig_waiting = False
                 elif notify_type == "state":
                     new_vars, func_args = notify_info
-                    user_kwargs = self.state_trigger_kwargs.get("kwargs", {})
+                    user_kwargs = self.state_trigger_kwargs.get("kwargs") or {}
 
                     if not ident_any_values_changed(func_args, self.state_trig_ident_any):
                         #
@@ -1279,22 +1279,22 @@ class TrigInfo:
 
                 elif notify_type == "event":
                     func_args = notify_info
-                    user_kwargs = self.event_trigger_kwargs.get("kwargs", {})
+                    user_kwargs = self.event_trigger_kwargs.get("kwargs") or {}
                     if self.event_trig_expr:
                         trig_ok = await self._call_expression(self.event_trig_expr, notify_info)
                 elif notify_type == "mqtt":
                     func_args = notify_info
-                    user_kwargs = self.mqtt_trigger_kwargs.get("kwargs", {})
+                    user_kwargs = self.mqtt_trigger_kwargs.get("kwargs") or {}
                     if self.mqtt_trig_expr:
                         trig_ok = await self._call_expression(self.mqtt_trig_expr, notify_info)
                 elif notify_type == "webhook":
                     func_args = notify_info
-                    user_kwargs = self.webhook_trigger_kwargs.get("kwargs", {})
+                    user_kwargs = self.webhook_trigger_kwargs.get("kwargs") or {}
                     if self.webhook_trig_expr:
                         trig_ok = await self._call_expression(self.webhook_trig_expr, notify_info)
 
                 else:
-                    user_kwargs = self.time_trigger_kwargs.get("kwargs", {})
+                    user_kwargs = self.time_trigger_kwargs.get("kwargs") or {}
                     func_args = notify_info
 
                 #
